@@ -69,6 +69,40 @@ def _summ_conv(f):
     return x, symx.real_term(s.result)
 
 
+def converter_frames(rep):
+    """A5 (E3): a converter writes nothing -- it receives the source COLUMN (an array that is also the
+    value of the source node, an entry of the result and possibly the caller's data), so scaling it in
+    place would change the source variant"""
+    import numpy
+
+    from _gettsim import time_conversion as tc
+    from vt import frame
+
+    an = frame.Analyzer(str(venv.SRC))
+    for u in "ymwd":
+        for v in "ymwd":
+            if u == v:
+                continue
+            nm = f"{u}_to_{v}"
+            eff = an.effects.get(("_gettsim.time_conversion", nm))
+            where = "src/_gettsim/time_conversion.py"
+            if eff is None:
+                rep.ob(f"A5:{nm} writes nothing", "unsupported", "E3", 0, where, "frame", "converter not found")
+                continue
+            w = sorted(x for x in eff.writes if not x.startswith("outer:"))
+            st = "discharged" if not w and not eff.unknown_calls else "refuted" if w else "unknown"
+            rep.ob(f"A5:{nm} writes nothing (its argument is the source column itself)", st, "E3", 0, where, "frame", f"writes {w} {[t for _, _, t in eff.write_sites][:2]}" if w else "")
+            if w:
+                arr = numpy.array([100.0, 250.5])
+                keep = arr.copy()
+                try:
+                    getattr(tc, nm)(arr)
+                except Exception:  # noqa: BLE001
+                    pass
+                changed = not numpy.array_equal(arr, keep)
+                rep.violation(f"converter-writes:{nm}", f"{nm} modifies its argument: the column {keep.tolist()} passed in is {arr.tolist()} afterwards, so the source variant no longer differs from the converted one by the factor", {"obligation": f"A5:{nm}", "input": keep.tolist(), "after": arr.tolist(), "replay": "converter_frame", "converter": nm}, changed)
+
+
 def algebra(rep, per):
     from _gettsim import time_conversion as tc
 
@@ -415,6 +449,7 @@ def run(tier="quick", seed=0, jobs=16):
         rep.ob("K:documented factors parsed from GEP-4", "unsupported", "parse", 0, "docs/geps/gep-04.md", "doc", str(per))
         return rep.finish()
     algebra(rep, per)
+    converter_frames(rep)
     # the wiring depends on the set of active rule implementations only (no parameter is read):
     # one class per interval between decorator dates is exhaustive; thorough re-checks every
     # parameter date class as well
@@ -460,7 +495,22 @@ def run(tier="quick", seed=0, jobs=16):
     return rep.finish({"date_classes": len(dates), "wiring_items_distinct": len(items), "wiring_items_visited": n_checked, "documented_factors": {k: str(v) for k, v in per.items()}})
 
 
+def _replay_converter(rp):
+    import numpy
+
+    from _gettsim import time_conversion as tc
+
+    arr = numpy.array(rp["input"], dtype=float)
+    keep = arr.copy()
+    getattr(tc, rp["converter"])(arr)
+    print(json.dumps({"before": keep.tolist(), "after": arr.tolist()}))
+    return 0 if numpy.array_equal(arr, keep) else 1
+
+
 def replay(path):
+    _rp = json.loads(open(path).read())
+    if _rp.get("replay") == "converter_frame":
+        return _replay_converter(_rp)
     rp = json.loads(open(path).read())
     if "pair" in rp:
         r = replay_pair(rp["date"], rp["pair"][0], rp["pair"][1])
